@@ -27,6 +27,11 @@ Packagings (a sugared form must mean its expansion whatever index types the gene
     expansion writes the cross-clause repeats out as well (`link(x, y), link(zc1, zc2) if zc1 == y if zc2 == x`: no shared
     variable, no join index), and (5) the plan the macro dumped is compared with Plan/PlanModel.v compile_model
     (gen/plan_model.py: index column lists compared as LISTS; Syntax/JoinIndexOrder.v proves what depends on their order).
+  * family `bindjoin` (gen/c07_bind.py): a variable bound by a body item BEFORE the first clause — `agg` with a min / max /
+    sum result, `agg .. count()` through `let m = c as i32`, `let`, `if let`, `for` — repeated inside the first / the second /
+    both clauses of the two-clause join that follows (`res(x, m) <-- agg m = min(v) in w(v), foo(x, y), bar(y, m)`), with inputs
+    whose first join index has more keys than the second relation has rows and the reverse, and rows whose join columns match
+    while the repeated column differs from the bound value.  Hand expansion and plan comparison as for permjoin.
 """
 import concurrent.futures as cf
 import json
@@ -34,6 +39,7 @@ import os
 import time
 from collections import Counter
 
+from .. import c07_bind as B
 from .. import c07_gen as G
 from .. import c07_hir as H
 from .. import c07_neg as N
@@ -110,6 +116,20 @@ def gen_perm_cases(tier, seed):
     return cases
 
 
+def gen_bind_cases(tier, seed):
+    """family `bindjoin` (gen/c07_bind.py): a variable bound BEFORE the first clause (agg min / max / sum / count, let, if let,
+    for) repeated in the first / second / both clauses of the two-clause join that follows; relative index sizes both ways;
+    every third program under ascent_par!; hand expansion = every repeat of a bound variable written as fresh variable + test"""
+    n = 28 if tier == "quick" else 210
+    cases = []
+    for k in range(n):
+        rng = lib.rng_for(seed, PROP, "bindjoin%d" % k)
+        p, info = B.gen_bind_program(rng, k, tier)
+        cases.append(dict(id="c07_b%d" % k, prog=p, inputs=B.bind_inputs(rng, p, info), adversarial=[], macro="ascent_par" if (k + k // 7) % 3 == 2 else "ascent",
+                          family="bindjoin", cross=True, bind_info=info))
+    return cases
+
+
 def gen_cases(tier, seed):
     rng = lib.rng_for(seed, PROP)
     n = 66 if tier == "quick" else 1000
@@ -131,7 +151,7 @@ def gen_cases(tier, seed):
                 inputs = G.join_repeat_inputs(rng2, p, jr)
         # every 4th program through the parallel macro (sugared text and hand expansion alike)
         cases.append(dict(id="c07_%d" % k, prog=p, inputs=inputs, adversarial=names, join_repeat=jr, macro="ascent_par" if k % 4 == 3 else "ascent"))
-    return cases + gen_neg_cases(tier, seed) + gen_perm_cases(tier, seed)
+    return cases + gen_neg_cases(tier, seed) + gen_perm_cases(tier, seed) + gen_bind_cases(tier, seed)
 
 
 def has_strata_items(p):
@@ -508,6 +528,7 @@ def compare(c, stats):
         if nforms >= 2:
             stats["distinct"] += 1
         note_perm(c, inp, S[k], stats)
+        B.note(c, inp, S[k], stats)
         if i1 != i2:
             mism.append(dict(case=cs, impl=dict(sugared=i1), model=dict(desugared_model=D[k]), spec=dict(hand_expansion=i2, surface=S[k]), kind="impl_violates_spec", known=known,
                              what="the sugared program and its documented core expansion compute different relations under %s! (%s)" % (c["macro"], first_diff(i1, i2, obs))))
@@ -577,7 +598,9 @@ def tie(tier, seed, replay):
     samples += [dict(macro=c["macro"], sugared=c["text"], hand_expansion=c["expanded_text"]) for c in cases if c.get("family") == "permjoin"][:3]
     negreads = {k[len("negread:"):]: v for k, v in stats.items() if k.startswith("negread:")}
     permruns = {k: v for k, v in stats.items() if k.startswith(("permjoin:", "permorder:"))}
-    outcome = {k: v for k, v in stats.items() if not k.startswith(("negread:", "permjoin:", "permorder:"))}
+    bindruns = {k: v for k, v in stats.items() if k.startswith("bindjoin:")}
+    samples += [dict(macro=c["macro"], sugared=c["text"], hand_expansion=c["expanded_text"]) for c in cases if c.get("family") == "bindjoin"][:3]
+    outcome = {k: v for k, v in stats.items() if not k.startswith(("negread:", "permjoin:", "permorder:", "bindjoin:"))}
     exp_sample = [dict(sugared=c["text"], hand_expansion=c["expanded_text"]) for c in cases if c["feats"].get("disj") and c["feats"].get("repeated_var")][:1]
     return dict(
         evaluations=stats["evaluations"], distinct_nontrivial=stats["distinct"],
@@ -585,6 +608,7 @@ def tie(tier, seed, replay):
         samples=samples + exp_sample,
         distribution=dict(programs=len(cases), occurrences=dict(feats), programs_using=dict(progs_with), outcome=outcome,
                           cross_clause_joins_evaluated=dict(note="family permjoin, per (program, input) pair that produced relations on all sides. permjoin:(all columns of clause 1 repeated in clause 2 in another order | in the same order | a proper subset):(rows of clause 1's relation in that run: derived_only | derived+loaded | loaded_only | empty):(the joining rule derived a tuple | not); permorder:(arity of clause 1):(order in which clause 2 mentions clause 1's columns):(..)", counts=permruns),
+                          bound_before_first_clause_joins_evaluated=dict(note="family bindjoin, per (program, input) pair that produced relations on all sides. bindjoin:(what binds the variable before the first clause):(clause of the following two-clause join that repeats it: first | second | both | none):(the first clause's join index has more keys than the second clause's index = the run-time size test prefers the swapped order | not):(replacing the repeats by fresh variables changes the specification's result on this input = the equality test decides | idle)", counts=bindruns),
                           negations_evaluated=dict(note="(wildcard mask kind):(negated relation: default | provider):(macro):(negated relation empty | nonempty in that run), per (program, input) pair that produced relations on all sides", counts=negreads)),
         mismatches=mism,
         trusted_base=["gen/c07_neg.py spec_program: the explicit closure rules standing for a provider-tagged relation (eqrel: reflexive on mentioned elements + symmetric + transitive; trrel: transitive; trrel_uf: reflexive on mentioned elements + transitive; per key for ternary forms) — the specification C10 / C11 / C12 check the providers against",
